@@ -32,9 +32,11 @@ from ..vloop import World
 TITLE = "device management requests"
 CHANNEL = 5
 P = {1: (ResourceObjectType.OBJECT_DEVICE, 1, 11), 2: (ResourceObjectType.OBJECT_ROUTER, 1, 52)}   # (object type, instance, property id)
-ACKS = ["ack-ok", "no-ack", "ack-error-status", "ack-twice"]
+ACKS = ["ack-ok", "no-ack", "ack-error-status", "ack-twice", "ack-late(0.03s)"]
+ACCEPTED = ("ack-ok", "ack-twice", "ack-late(0.03s)")
 ANSWERS = ["answer", "no-answer", "answer-late(11s)", "answer-twice", "answer-for-other-property", "answer-of-other-type", "indication-then-answer", "server-disconnect", "answer-other-instance"]
-USER = ["-", "user-disconnect-now"]
+USER = ["-", "user-disconnect-now", "user-cancels-the-waiting-request"]
+DISC = ["disconnect-response", "disconnect-response-late(0.05s)"]
 
 
 def info(p: int, instance: int | None = None) -> CEMIMPropInfo:
@@ -95,7 +97,8 @@ def make(kind: str, program: str, with_callback: bool = True, route_back: bool =
                     gw.send(ConnectionStateResponse(body.communication_channel_id))
                 elif isinstance(body, DisconnectRequest):
                     events.append((round(now, 3), "DisconnectRequest(client)"))
-                    gw.send(DisconnectResponse(body.communication_channel_id))
+                    d = ch.choose("disconnect", len(DISC)) if program == "reuse-pending" else 0
+                    gw.send(DisconnectResponse(body.communication_channel_id), delay=0.05 if d else 0.0)
                 elif isinstance(body, DeviceConfigurationAck):
                     pass
                 elif isinstance(body, DeviceConfigurationRequest):
@@ -103,19 +106,21 @@ def make(kind: str, program: str, with_callback: bool = True, route_back: bool =
                     code = raw[0]
                     p = next((k for k, v in P.items() if int.from_bytes(raw[1:3], "big") == int(v[0]) and raw[4] == v[2]), 0)
                     key = (body.sequence_counter, raw)
-                    repetition = bool(srv["requests"]) and srv["requests"][-1]["key"] == key
+                    repetition = bool(srv["requests"]) and srv["requests"][-1]["key"] == key and srv.get("new_connection_at") != len(srv["requests"])
                     rec = {"t": now, "key": key, "p": p, "code": code, "counter": body.sequence_counter, "repetition": repetition}
                     srv["requests"].append(rec)
                     a = 0 if tcp else ch.choose("ack", len(ACKS))
                     rec["ack"] = ACKS[a]
                     if not tcp:
+                        if ACKS[a] == "ack-late(0.03s)":
+                            gw.send(DeviceConfigurationAck(CHANNEL, body.sequence_counter), delay=0.03)
                         if ACKS[a] in ("ack-ok", "ack-twice"):
                             gw.send(DeviceConfigurationAck(CHANNEL, body.sequence_counter))
                             if ACKS[a] == "ack-twice":
                                 gw.send(DeviceConfigurationAck(CHANNEL, body.sequence_counter))
                         elif ACKS[a] == "ack-error-status":
                             gw.send(DeviceConfigurationAck(CHANNEL, body.sequence_counter, ErrorCode.E_SEQUENCE_NUMBER))
-                    if not tcp and ACKS[a] not in ("ack-ok", "ack-twice"):
+                    if not tcp and ACKS[a] not in ACCEPTED:
                         events.append((round(now, 3), f"req p{p} ctr={body.sequence_counter}", ACKS[a]))
                         return  # the server did not take the request
                     r = ch.choose("answer", len(ANSWERS))
@@ -158,8 +163,9 @@ def make(kind: str, program: str, with_callback: bool = True, route_back: bool =
                 return [("harness:connect-failed", repr(t0))]
             results: dict[str, Any] = {}
             closed_at: list[float] = []
+            cancelled_by_user: list[bool] = []
 
-            async def do(name: str, p: int, write: bool) -> None:
+            async def _do(name: str, p: int, write: bool) -> None:
                 start = loop.time()
                 try:
                     if write:
@@ -173,10 +179,34 @@ def make(kind: str, program: str, with_callback: bool = True, route_back: bool =
                 except BaseException as exc:  # noqa: BLE001
                     results[name] = (type(exc).__name__, repr(exc)[:60], start, loop.time(), p, write)
 
+            current: list[Any] = []
+
+            async def do(name: str, p: int, write: bool) -> None:   # noqa: F811  (cancellable wrapper around the request above)
+                t = asyncio.ensure_future(_do(name, p, write))
+                current[:] = [t]
+                try:
+                    await t
+                except asyncio.CancelledError:
+                    if not t.cancelled():
+                        raise
+
             async def user() -> None:
                 if program == "seq":
                     await do("r1", 1, False)
                     await do("w2", 2, True)
+                elif program == "reuse-pending":
+                    # the connection is closed while the first request is still waiting, then opened again on the same object
+                    t1 = asyncio.ensure_future(_do("r1a", 1, False))
+                    await asyncio.sleep(0.015)
+                    events.append((round(loop.time(), 3), "user disconnect()"))
+                    closed_at.append(loop.time())
+                    try:
+                        await conn.disconnect()
+                        await t1
+                        await conn.connect()
+                    except CommunicationError:
+                        return
+                    await do("r1b", 1, False)
                 elif program == "same":
                     await do("r1a", 1, False)
                     await do("r1b", 1, False)
@@ -194,9 +224,15 @@ def make(kind: str, program: str, with_callback: bool = True, route_back: bool =
             async def closer() -> None:
                 # the user may close the connection while a request is waiting for its answer
                 await asyncio.sleep(0.015)
-                if program == "reuse":
+                if program in ("reuse", "reuse-pending"):
                     return   # this program closes and reopens the connection itself
-                if ch.choose("user", len(USER)):
+                c = ch.choose("user", len(USER))
+                if c == 2:
+                    events.append((round(loop.time(), 3), "user cancels the waiting request"))
+                    if current and not current[0].done():
+                        current[0].cancel()
+                        cancelled_by_user.append(True)
+                elif c == 1:
                     events.append((round(loop.time(), 3), "user disconnect()"))
                     closed_at.append(loop.time())
                     await conn.disconnect()
@@ -227,15 +263,15 @@ def make(kind: str, program: str, with_callback: bool = True, route_back: bool =
                     mine = [r for r in reqs if r["p"] == p and r["code"] == CEMIMessageCode.M_PROP_WRITE_REQ.value and r.get("answer") in ("answer", "answer-twice", "indication-then-answer", "answer-late(11s)")]
                     if not mine:
                         viols.append(("write-confirmed-without-own-answer", f"{name}: write of P{p} returned although the server never confirmed it; events={events}"))
+                elif kind_ == "CancelledError" and cancelled_by_user:
+                    pass   # the user cancelled this call
                 elif kind_ not in ("CommunicationError",):
                     viols.append((f"request-raises-undeclared:{kind_}", f"{name}: {val}; events={events}"))
-                if kind_ == "CommunicationError" and closed_at and "closed" in str(val) and abs(end - closed_at[0]) > 1e-6 and end > closed_at[0]:
-                    viols.append(("pending-request-not-failed-promptly", f"{name}: connection closed at t={closed_at[0]}, request failed at t={end}; events={events}"))
             if closed_at:
                 for name, (kind_, val, start, end, p, write) in results.items():
-                    if start <= closed_at[0] <= end and kind_ != "ok" and end - closed_at[0] > 1e-6:
+                    if start < closed_at[0] - 1e-9 and closed_at[0] <= end and kind_ != "ok" and end - closed_at[0] > 1e-6:
                         last = [r for r in reqs if r["p"] == p and r["t"] <= closed_at[0] + 1e-9]
-                        phase = "waiting-for-acknowledgement" if last and last[-1]["ack"] not in ("ack-ok", "ack-twice") else "waiting-for-answer" if last else "waiting-for-lock"
+                        phase = "waiting-for-acknowledgement" if last and (last[-1]["ack"] not in ACCEPTED or (last[-1]["ack"] == "ack-late(0.03s)" and closed_at[0] < last[-1]["t"] + 0.03)) else "waiting-for-answer" if last else "waiting-for-lock"
                         viols.append((f"pending-request-not-failed-promptly:{phase}", f"{name}: user closed at t={closed_at[0]} while the request was waiting; it failed only at t={end} ({kind_}: {val}); events={events}"))
             want_ind = sum(1 for r in reqs if r.get("answer") == "indication-then-answer")
             if len(indications) > want_ind:
@@ -256,8 +292,11 @@ def make(kind: str, program: str, with_callback: bool = True, route_back: bool =
                         runs[-1].append(r)
                     else:
                         runs.append([r])
+                # a call cancelled by the user before the (late) acknowledgement of its request arrived: whether the server took the
+                # request is unknowable for the client - the counter clauses are not judged in such a schedule
+                unknowable = bool(cancelled_by_user) and any(r["t"] <= 0.015 + 1e-9 and r["ack"] == "ack-late(0.03s)" for r in reqs)
                 expect = 0
-                for run in runs:
+                for run in ([] if unknowable else runs):
                     nca = srv.get("new_connection_at")
                     if nca is not None and nca < len(reqs) and run[0] is reqs[nca]:
                         expect = 0   # first request of the second connection
@@ -272,7 +311,7 @@ def make(kind: str, program: str, with_callback: bool = True, route_back: bool =
                     req_raw = run[0]["key"][1]
                     con_code = {CEMIMessageCode.M_PROP_READ_REQ.value: CEMIMessageCode.M_PROP_READ_CON.value, CEMIMessageCode.M_PROP_WRITE_REQ.value: CEMIMessageCode.M_PROP_WRITE_CON.value}.get(req_raw[0])
                     answered = any(run[0]["t"] - 1e-9 <= t <= run[-1]["t"] + 10 + 1e-9 and raw[0] == con_code and raw[1:5] == req_raw[1:5] for t, raw in srv.get("sent", []))
-                    if any(x["ack"] in ("ack-ok", "ack-twice") for x in run):
+                    if any(x["ack"] in ACCEPTED for x in run):
                         expect = (expect + 1) % 256
                     elif answered:
                         expect = (expect + 1) % 256
@@ -280,7 +319,7 @@ def make(kind: str, program: str, with_callback: bool = True, route_back: bool =
                     elif len(run) == 4 and not any(e[1] == "DisconnectRequest(client)" for e in events):
                         viols.append(("no-disconnect-after-unacknowledged-repetitions", f"events={events}"))
                 # 'the counter advances once per accepted request': what the client would put into its next request
-                if conn.communication_channel is not None and srv.get("new_connection_at") is None and conn.sequence_number != expect:
+                if not unknowable and conn.communication_channel is not None and srv.get("new_connection_at") is None and conn.sequence_number != expect:
                     viols.append(("counter-advanced-without-acceptance" if conn.sequence_number > expect else "counter-not-advanced-after-acceptance",
                                   f"the client's next counter is {conn.sequence_number}, the server accepted {expect} request(s) on this connection; events={events}"))
             for name, exc in loop.task_failures():
@@ -301,8 +340,8 @@ SCENARIOS = {"dm": make}
 def run(ctx: Ctx) -> None:
     bound = 5 if ctx.thorough else 3
     ctx.rule = (
-        f"real UDP/TCPDeviceManagementConnection (connected through connect()) against a simulated server: programs read P1 then write P2 / read P1 twice / two reads concurrently / read, disconnect(), connect() on the same object, read again (also with route_back=True), optional "
-        f"user disconnect() while a request waits; per DeviceConfigurationRequest the server acknowledges with {ACKS} (UDP) and answers with {ANSWERS}; EVERY schedule with <= {bound} deviations. "
+        f"real UDP/TCPDeviceManagementConnection (connected through connect()) against a simulated server: programs read P1 then write P2 / read P1 twice / two reads concurrently / read, disconnect(), connect() on the same object, read again (also with route_back=True), or disconnect() while the first read is still waiting and then connect() and read again (the server may answer the DisconnectRequest 50 ms late), optional "
+        f"user disconnect() or cancellation of the waiting call; per DeviceConfigurationRequest the server acknowledges with {ACKS} (UDP) and answers with {ANSWERS}; EVERY schedule with <= {bound} deviations. "
         "Oracle: a returned read carries the request's property AND was produced for this request (tagged), writes need their own confirmation, indications only reach the indication callback, "
         "one request outstanding, a close fails a waiting request at the same virtual instant, UDP: same counter repeated <= 3 times then DisconnectRequest, counter +1 per accepted request"
     )
@@ -312,6 +351,7 @@ def run(ctx: Ctx) -> None:
             explore(ctx, __name__, "dm", (kind, prog, True), bound=bound)
         explore(ctx, __name__, "dm", (kind, "seq", False), bound=bound)   # no indication callback registered (the default)
         explore(ctx, __name__, "dm", (kind, "reuse", True), bound=min(bound, 2))
+        explore(ctx, __name__, "dm", (kind, "reuse-pending", True), bound=min(bound, 3))
     explore(ctx, __name__, "dm", ("udp", "reuse", True, True), bound=min(bound, 2))     # route_back=True
     explore(ctx, __name__, "dm", ("udp", "seq", True, True), bound=min(bound, 2))
     finalize_states(ctx)
